@@ -46,8 +46,12 @@ for src in MODES:
                 reg = m.attrs['_reg']
                 for n in ALL:
                     reg.attrs[n] = b.sym(kind, n)
-                return {'self': m, 'to_mode': b.enum('bardolph.controller.units', 'UnitMode', dst)}
-            c = contract(M, 'Machine._switch_unit_mode', serves=['C14', 'C10'],
+                from pyvc.values import PyList
+                dflt = [b.sym('int', 'default%d' % i) for i in range(4)]      # the saved default colour is always raw
+                reg.attrs['default'] = PyList(list(dflt))
+                return {'self': m, 'to_mode': b.enum('bardolph.controller.units', 'UnitMode', dst),
+                        '_d0': dflt[0], '_d1': dflt[1], '_d2': dflt[2], '_d3': dflt[3]}
+            c = contract(M, 'Machine._switch_unit_mode', serves=['C14', 'C10', 'C15'],
                          name='Machine._switch_unit_mode[%s->%s,%s]' % (src, dst, kind))
             c.setup(setup)
             # documented valid ranges
@@ -60,6 +64,11 @@ for src in MODES:
             c.requires('kelvin', '0 <= self._reg.kelvin <= 65535')
             c.requires('times', '0 <= self._reg.duration and 0 <= self._reg.time')
             c.ensures('mode', 'self._reg.unit_mode is to_mode')
+            c.ensures('saved-default-colour-untouched', 'len(self._reg.default) == 4 and self._reg.default[0] == _d0 and self._reg.default[1] == _d1 '
+                      'and self._reg.default[2] == _d2 and self._reg.default[3] == _d3')
+            c.ensures('nothing-else-in-the-registers-changes', 'unchanged(self._reg.name) and unchanged(self._reg.operand) and unchanged(self._reg.power) '
+                      'and unchanged(self._reg.result) and unchanged(self._reg.pc) and unchanged(self._reg.matrix) and unchanged(self._reg.first_zone) '
+                      'and unchanged(self._reg.last_zone) and unchanged(self._reg.disc_forward)')
             if src == dst:
                 for n in ALL:
                     c.ensures('unchanged-' + n, 'unchanged(self._reg.%s)' % n)
